@@ -119,6 +119,10 @@ class ChildSchema(Schema):
     @pre_load
     def handle_compatibility(self, data: dict, **kwargs: Any) -> dict:  # noqa: ANN401, ARG002
         """Make pymysensors data compatible with aiomysensors."""
+        if not isinstance(data, dict):
+            # Let the schema report the invalid input type.
+            return data
+
         # Conversion of pymysensors data to aiomysensors format.
         if "id" in data:
             data["child_id"] = data.pop("id")
@@ -149,6 +153,10 @@ class NodeSchema(Schema):
     @pre_load
     def handle_compatibility(self, data: dict, **kwargs: Any) -> dict:  # noqa: ANN401, ARG002
         """Make pymysensors data compatible with aiomysensors."""
+        if not isinstance(data, dict):
+            # Let the schema report the invalid input type.
+            return data
+
         # Conversion of pymysensors data to aiomysensors format.
         if "sensor_id" in data:
             data["node_id"] = data.pop("sensor_id")
